@@ -9,21 +9,33 @@
    [run_direct], [run_flat (compile p)], [blocking_flags], [flatten]; it also evaluates [wf_progb (compile p)]. *)
 From Coq Require Import List ZArith Bool Arith.
 From Verif Require Import Model.C02_Blocking Model.C02_Flat Model.C02_Wf Model.C02_Hoist.
-From Verif Require Import Proofs.C02_Blocking Proofs.C02_Flat Proofs.C02_Compile Proofs.C02_Hoist.
+From Verif Require Import Proofs.C02_Blocking Proofs.C02_Flat Proofs.C02_Compile Proofs.C02_Correct Proofs.C02_Hoist.
 Import ListNotations.
 
-(* The full statement for the modelled fragment: for EVERY source program and EVERY schedule of suspensions the
-   compiled resumable form computes what the direct semantics computes.  It factors into
-     (A) schedule independence of the resumable form          — proved below for all well-formed flat programs;
-     (C) [wf_prog (compile p)] for every source program p       — proved below (closed marks, unique case labels);
-     (B) resumable form without suspensions = direct semantics — NOT proved: evaluated by Coq on every generated
-         program in the correspondence run (Corr/C02_Eval.v, bit 2).
-   Hence the `_partial` suffixes: (A)+(C) give "the compiled program computes the same under every schedule",
-   the link to the source semantics (B) is checked per program only. *)
-Definition C02_full_statement : Prop :=
-  forall (sp : sprog) (sched : nat -> bool) nglob fuel main args o,
-    run_direct sp nglob fuel main args = Some o ->
-    exists fuel', run_flat (compile sp) sched nglob fuel' main args = Some o.
+(* THE STATEMENT for the modelled fragment (stage 1: integer locals/globals, println, if/else, for with
+   init/cond/post, labels, break/continue, calls, return, the blocking primitive): for EVERY source program and
+   EVERY schedule of suspensions the compiled resumable form computes what the direct semantics computes
+   (output, returned value, globals).  Proved from
+     (B) resumable form without suspensions = direct semantics   (Proofs/C02_Correct.v),
+     (C) [wf_prog (compile p)]: closed marks, unique case labels (Proofs/C02_Compile.v),
+     (A) schedule independence of well-formed flat programs      (Proofs/C02_Flat.v).
+   `_partial` only with respect to the property TEXT: defers, panics, goto, switch, range, closures and calls
+   inside expressions (stage 2) are not in this model — they are covered by the differential runs and, for calls
+   inside expressions, by Model/C02_Hoist.v below. *)
+Theorem C02_flat_suspend_invariant_partial : forall sp sched nglob fuel main args o,
+  src_ok sp = true ->
+  run_direct sp nglob fuel main args = Some o ->
+  exists fuel', run_flat (compile sp) sched nglob fuel' main args = Some o.
+Proof. exact flat_suspend_invariant. Qed.
+Print Assumptions C02_flat_suspend_invariant_partial.
+
+(* (B) alone: the translation is correct when nothing suspends. *)
+Theorem C02_resumable_form_computes_direct_semantics_partial : forall sp nglob fuel main args o,
+  src_ok sp = true ->
+  run_direct sp nglob fuel main args = Some o ->
+  exists fuel', run_flat (compile sp) never nglob fuel' main args = Some o.
+Proof. exact run_direct_run_flat_never. Qed.
+Print Assumptions C02_resumable_form_computes_direct_semantics_partial.
 
 (* (A) For every flat program — any instruction lists, not only translator output — in which code emitted in
    direct form calls only direct-form functions and case labels are unique: whatever the run WITHOUT any
@@ -31,12 +43,12 @@ Definition C02_full_statement : Prop :=
    — any subset of the dynamic receive operations suspending the goroutine, the whole call chain unwinding by
    saved frames and being re-entered innermost-last — returns exactly the same, given enough fuel.
    Partial w.r.t. the property text: stage 1 only (no defers/panics/closures/goto; whole-locals frames). *)
-Theorem C02_flat_suspend_invariant_partial : forall p sched fuel main args w v w',
+Theorem C02_flat_schedule_independent_partial : forall p sched fuel main args w v w',
   wf_prog p ->
   run_machine p never fuel main args w = Some (v, w') ->
   exists fuel', run_machine p sched fuel' main args w = Some (v, w').
 Proof. exact suspend_invisible. Qed.
-Print Assumptions C02_flat_suspend_invariant_partial.
+Print Assumptions C02_flat_schedule_independent_partial.
 
 (* (C) The translation model only produces well-formed programs.  This is where the analysis matters: code left
    in direct form cannot reach a blocking function because the propagated flags are closed and [annot] marks
